@@ -260,7 +260,7 @@ def replay(prop, harness, hk, tgt, logf, timeout=3300):
     test_name = "kani_concrete_playback_"
     mod = harness.split("::")[0]
     modfile = os.path.join(hk, "src", mod + ".rs")
-    rdir = os.path.join(VERIF, "replay", prop)
+    rdir = os.path.join(os.environ.get("VERIF_REPLAY_DIR") or os.path.join(VERIF, "replay"), prop)
     os.makedirs(rdir, exist_ok=True)
     rpath = os.path.join(rdir, harness.replace("::", "__") + ".rs")
     open(rpath, "w").write(
@@ -298,8 +298,9 @@ def check(prop, tier, only=None, keep=False, jobs=None, calibrate=False):
     t0 = time.time()
     seed = int(os.environ.get("VERIF_SEED", "0") or 0)
     cfg = meta.PROPS[prop]
-    os.makedirs(os.path.join(VERIF, "evidence"), exist_ok=True)
-    evpath = os.path.join(VERIF, "evidence", prop + ".json")
+    evdir = os.environ.get("VERIF_EVIDENCE_DIR") or os.path.join(VERIF, "evidence")
+    os.makedirs(evdir, exist_ok=True)
+    evpath = os.path.join(evdir, prop + ".json")
     if os.path.exists(evpath):
         os.remove(evpath)
     known = load_known()
